@@ -236,8 +236,6 @@ func (rhs *randHashShuffler) IsInterfaceNil() bool {
 }
 
 func shuffleNodes(arg shuffleNodesArg) (*ResUpdateNodes, error) {
-	allLeaving := append(arg.unstakeLeaving, arg.additionalLeaving...)
-
 	waitingCopy := copyValidatorMap(arg.waiting)
 	eligibleCopy := copyValidatorMap(arg.eligible)
 
@@ -293,6 +291,10 @@ func shuffleNodes(arg shuffleNodesArg) (*ResUpdateNodes, error) {
 		log.Warn("distributeValidators shuffledOut failed", "error", err)
 	}
 
+	// only the validators which were found in the eligible or waiting lists can be reported as leaving
+	allLeaving := make([]Validator, 0, len(remainingUnstakeLeaving)+len(remainingAdditionalLeaving))
+	allLeaving = append(allLeaving, remainingUnstakeLeaving...)
+	allLeaving = append(allLeaving, remainingAdditionalLeaving...)
 	actualLeaving, _ := removeValidatorsFromList(allLeaving, stillRemainingInLeaving, len(stillRemainingInLeaving))
 
 	return &ResUpdateNodes{
